@@ -790,18 +790,17 @@ def kernel_jobs(rng, big=False):
     return jobs
 
 
-def sweep(ctx, est_jobs, fn_jobs, thread_counts, repeats, inproc):
-    """Compare worker results across thread counts / processes.  `inproc`: job index -> in-process result (or None).
-    Returns list of (job, kind, detail)."""
-    jobs = est_jobs + fn_jobs
-    res = run_workers(ctx, jobs, thread_counts, repeats)
+def _unsafe(job):
+    """Jobs that run a kernel with a recorded race (a crash of the interpreter is a possible outcome): they get their
+    own interpreters, so that a crash is attributed to them."""
+    return job.get('kind') == 'fn' and (job.get('kw') or {}).get('solver') == 'push'
+
+
+def _compare_batch(jobs, res, inproc, offset=0):
     bad = []
-    crashed = {k: v for k, v in res.items() if isinstance(v, tuple)}
     okr = {k: v for k, v in res.items() if not isinstance(v, tuple)}
-    for k, v in crashed.items():
-        bad.append((None, 'worker-crash', {'threads': k[0], 'rc': v[1], 'stderr': v[2]}))
     if not okr:
-        return bad, res
+        return bad
     ref_key = sorted(okr)[0]
     for i, job in enumerate(jobs):
         ref = okr[ref_key][i]
@@ -816,12 +815,42 @@ def sweep(ctx, est_jobs, fn_jobs, thread_counts, repeats, inproc):
                 bad.append((job, 'threads-differs', {'threads': [ref_key[0], k[0]], 'attrs': d, 'max_rel_diff': md,
                                                      'svds_restart': arpack_restart_pattern(job, r, ref)}))
                 break
-        if inproc.get(i) is not None:
-            d = diff_states(okr[ref_key][i], inproc[i])
+        if inproc.get(i + offset) is not None:
+            d = diff_states(okr[ref_key][i], inproc[i + offset])
             if d:
-                md = _maxdiff(okr[ref_key][i]['state'], inproc[i]['state'])
+                md = _maxdiff(okr[ref_key][i]['state'], inproc[i + offset]['state'])
                 bad.append((job, 'process-differs', {'threads': ref_key[0], 'attrs': d, 'max_rel_diff': md,
-                                                     'svds_restart': arpack_restart_pattern(job, okr[ref_key][i], inproc[i])}))
+                                                     'svds_restart': arpack_restart_pattern(job, okr[ref_key][i], inproc[i + offset])}))
+    return bad
+
+
+def sweep(ctx, est_jobs, fn_jobs, thread_counts, repeats, inproc):
+    """Compare worker results across thread counts / processes.  `inproc`: job index -> in-process result (or None).
+    Returns list of (job, kind, detail)."""
+    safe = est_jobs + [j for j in fn_jobs if not _unsafe(j)]
+    unsafe = [j for j in fn_jobs if _unsafe(j)]
+    # in-process results are indexed in the order est_jobs + fn_jobs: re-index them for the safe batch
+    order = est_jobs + fn_jobs
+    pos = {id(j): i for i, j in enumerate(order)}
+    inproc_safe = {i: inproc.get(pos[id(j)]) for i, j in enumerate(safe)}
+    bad = []
+    res = run_workers(ctx, safe, thread_counts, repeats) if safe else {}
+    for k, v in res.items():
+        if isinstance(v, tuple):
+            if v[1] == 'timeout':
+                raise subprocess.TimeoutExpired('c16 worker (threads=%s)' % k[0], 240)
+            bad.append((None, 'worker-crash', {'threads': k[0], 'rc': v[1], 'stderr': v[2]}))
+    bad += _compare_batch(safe, res, inproc_safe)
+    if unsafe:
+        res2 = run_workers(ctx, unsafe, thread_counts, repeats)
+        crashed = {k: v for k, v in res2.items() if isinstance(v, tuple)}
+        for k, v in crashed.items():
+            for j in unsafe:
+                bad.append((j, 'worker-crash', {'threads': k[0], 'rc': v[1], 'stderr': v[2][-200:]}))
+            break
+        bad += _compare_batch(unsafe, res2, {})
+        res = dict(res)
+        res.update({('unsafe',) + k: v for k, v in res2.items()})
     return bad, res
 
 
